@@ -1,3 +1,4 @@
 import MpfVerif.DriverLoop
-/-! Driver of the C13 model (stub until the model exists): answers bad-op to everything. -/
-def main : IO UInt32 := MpfVerif.runDriver (fun (s : Unit) _ => (s, "bad-op")) ()
+import MpfVerif.Model.Delay
+/-! Driver of the C13 model (delays and periodic tasks). -/
+def main : IO UInt32 := MpfVerif.runDriver MpfVerif.Delay.driverStep {}
